@@ -294,8 +294,17 @@ def table_Y(repo):
         msgs[name] = sorted(res, key=lambda x: x["num"])
     return {"messages": msgs, "enums": enums}
 
+def published():
+    """The schema as PUBLISHED at the pinned baseline (frozen copy: spec/published_schema.json). Releases in the field wrote
+    their bytes with these numbers: the live .proto may grow, but a published field / enum value keeps number, type and label."""
+    p = os.path.join(os.path.dirname(os.path.dirname(os.path.abspath(__file__))), "spec", "published_schema.json")
+    return json.load(open(p))
+
 def events(repo):
     P, R, Y = table_P(repo), table_R(repo), table_Y(repo)
+    Pub = published()
+    # JSON round trip so that both tables have the same shape (lists, not tuples)
+    P = json.loads(json.dumps(P))
     evs = []
     names = sorted(set(P["messages"]) | set(R["messages"]) | set(Y["messages"]))
     for n in names:
@@ -305,12 +314,18 @@ def events(repo):
                            # a message whose codec is hand-written has no attribute table: its conformance is decided by
                            # the behavioural families alone (wire_decode / wire_encode against the independent encoder)
                            "Rhand": n in R.get("handwritten", []),
+                           "Pub": [Pub["messages"][n]] if n in Pub["messages"] else [],
                            "Y": [Y["messages"][n]] if n in Y["messages"] else []}, "out": {"tag": "ok"}})
     for n in sorted(set(P["enums"]) | set(R["enums"]) | set(Y["enums"])):
         evs.append({"ev": "schema_enum", "case": f"schema-enum-{n}", "src": "static",
                     "in": {"name": n, "P": [P["enums"][n]] if n in P["enums"] else [],
                            "R": [R["enums"][n]] if n in R["enums"] else [],
+                           "Pub": [Pub["enums"][n]] if n in Pub["enums"] else [],
                            "Y": [Y["enums"][n]] if n in Y["enums"] else []}, "out": {"tag": "ok"}})
+    # a published message / enum that the live schema no longer has at all
+    for n in sorted(set(Pub["messages"]) - set(names)):
+        evs.append({"ev": "schema_msg", "case": f"schema-msg-{n}", "src": "static",
+                    "in": {"name": n, "P": [], "R": [], "Rhand": False, "Pub": [Pub["messages"][n]], "Y": []}, "out": {"tag": "ok"}})
     return evs, P
 
 if __name__ == "__main__":
